@@ -23,9 +23,12 @@ def facts(res, harness):
     return {"err_assignments_unchecked_in_loops": rows, "facts_regenerated_changed": r["facts_regenerated_changed"]}
 
 
-def gen(tier, rng, harness=None):
+def gen(tier, rng, harness=None, driver=None):
     n = 120 if tier == "quick" else 5000
     lines = []
+    # M-Core-3: the proved translation of real function bodies against the real parser on printed functions and their single-point mutants
+    from . import pC01
+    lines += pC01.core3_parse_stream(rng, driver, n)
     # systematic: every definition-site kind x every use-site kind of one function body under confusable namings (vlib/localgen.py)
     for kind, exp, text, sk in localgen.cases(rng, 20 if tier == "quick" else 400):
         lines.append("mod.outcome %s %s" % (hx(sk), hx(text)))
